@@ -45,380 +45,7 @@ func runC09(c *Ctx) {
 	}
 	txData := fn.Params[0]
 
-	// ---- R09a: clean provenance of everything written to the builder
-	var cleanVal func(v ssa.Value, depth int) bool
-	var cleanSlice func(v ssa.Value, depth int) bool
-	cleanVal = func(v ssa.Value, depth int) bool {
-		if depth > 20 {
-			return false
-		}
-		if _, ok := constString(v); ok {
-			return true
-		}
-		if !carriesText(v.Type()) {
-			return true
-		}
-		switch x := v.(type) {
-		case *ssa.MakeInterface:
-			return cleanVal(x.X, depth+1)
-		case *ssa.Phi:
-			for _, e := range x.Edges {
-				if !cleanVal(e, depth+1) {
-					return false
-				}
-			}
-			return true
-		case *ssa.Call:
-			if calleeFullName(x) == "fmt.Sprintf" {
-				if _, ok := constString(x.Call.Args[0]); !ok {
-					return false
-				}
-				for _, e := range variadicElems(x.Call.Args[1]) {
-					if !cleanVal(e, depth+1) {
-						return false
-					}
-				}
-				return true
-			}
-		case *ssa.UnOp:
-			if x.Op == token.MUL {
-				if f, _ := anyFieldRead(x); f != nil {
-					return sameField(f, nameF)
-				}
-				if ia, ok := x.X.(*ssa.IndexAddr); ok {
-					return cleanSlice(ia.X, depth+1)
-				}
-			}
-		case *ssa.Field:
-			return sameField(fieldOfField(x), nameF)
-		}
-		return false
-	}
-	cleanSlice = func(v ssa.Value, depth int) bool {
-		if depth > 20 {
-			return false
-		}
-		switch x := v.(type) {
-		case *ssa.Slice:
-			if a, ok := x.X.(*ssa.Alloc); ok {
-				// fresh array: elements stored must be clean
-				for _, e := range variadicElems(x) {
-					if !cleanVal(e, depth+1) {
-						return false
-					}
-				}
-				_ = a
-				return true
-			}
-		case *ssa.Phi:
-			for _, e := range x.Edges {
-				if e == ssa.Value(x) {
-					continue
-				}
-				if !cleanSliceGuard(x, e, cleanSlice, depth) {
-					return false
-				}
-			}
-			return true
-		case *ssa.Call:
-			if bi, ok := x.Call.Value.(*ssa.Builtin); ok && bi.Name() == "append" {
-				if !cleanSliceGuard(nil, x.Call.Args[0], cleanSlice, depth) {
-					return false
-				}
-				if len(x.Call.Args) > 1 {
-					return cleanSlice(x.Call.Args[1], depth+1)
-				}
-				return true
-			}
-		}
-		return false
-	}
-	nWrites := 0
-	for _, b := range fn.Blocks {
-		for _, ins := range b.Instrs {
-			call, ok := ins.(*ssa.Call)
-			if !ok {
-				continue
-			}
-			n := calleeFullName(call)
-			if !strings.HasPrefix(n, "(*strings.Builder).Write") {
-				continue
-			}
-			nWrites++
-			arg := call.Call.Args[1]
-			label := "write"
-			if s, ok := constString(arg); ok {
-				label = "write:" + fmt.Sprintf("%q", s)
-			} else if sp, ok := arg.(*ssa.Call); ok && calleeFullName(sp) == "fmt.Sprintf" {
-				if f, ok := constString(sp.Call.Args[0]); ok {
-					label = "write:" + fmt.Sprintf("%q", f)
-				}
-			}
-			if cleanVal(arg, 0) {
-				c.ok("R09a", "TxToScriptData:"+label, call.Pos(), "script text is a constant or a constant format filled with generated names")
-			} else {
-				c.bad("R09a", "TxToScriptData:"+label, call.Pos(), "text that is not provably made of constants and generated variable names is written into the script: a posting field (address, asset, amount) becomes Numscript source, so a crafted value can rewrite the program")
-			}
-		}
-	}
-	if nWrites < 8 {
-		c.undecided("R09a", "floor:builder-writes", fn.Pos(), fmt.Sprintf("only %d writes to the script builder found", nWrites))
-	}
-	// names are counters
-	nNames := 0
-	for _, b := range fn.Blocks {
-		for _, ins := range b.Instrs {
-			if v, _, ok := storeToField(ins, nameF); ok {
-				nNames++
-				okN := false
-				if sp, ok := v.(*ssa.Call); ok && calleeFullName(sp) == "fmt.Sprintf" {
-					if _, isC := constString(sp.Call.Args[0]); isC {
-						okN = true
-						for _, e := range variadicElems(sp.Call.Args[1]) {
-							if carriesTextDynamic(e) {
-								okN = false
-							}
-						}
-					}
-				}
-				c.check(okN, "R09a", fmt.Sprintf("TxToScriptData:variable-name-is-a-counter#%d", nNames), ins.Pos(), "variable.name = Sprintf(<const>, <int>)", "a generated variable name is built from something else than a constant format and a counter")
-			}
-		}
-	}
-
-	// ---- the emitting loop
-	var header *ssa.BasicBlock
-	var elemCell ssa.Value // local copy of the current posting
-	for _, b := range fn.Blocks {
-		for _, ins := range b.Instrs {
-			ia, ok := ins.(*ssa.IndexAddr)
-			if !ok {
-				continue
-			}
-			f, base := anyFieldRead(ia.X)
-			if !sameField(f, postingsF) || !isParamOrSpill(base, txData) {
-				continue
-			}
-			bo, ok := ia.Index.(*ssa.BinOp)
-			if !ok {
-				continue
-			}
-			phi, ok := bo.X.(*ssa.Phi)
-			if !ok || phi.Comment != "rangeindex" {
-				continue
-			}
-			// is this the loop that writes "send "?
-			h := phi.Block()
-			hasSend := false
-			for _, b2 := range fn.Blocks {
-				if !h.Dominates(b2) {
-					continue
-				}
-				for _, i2 := range b2.Instrs {
-					if call, ok := i2.(*ssa.Call); ok && isSendWrite(call) {
-						hasSend = true
-					}
-				}
-			}
-			if hasSend {
-				header = h
-				// the element copy: store of load(ia) into a local
-				for _, r := range *ia.Referrers() {
-					if u, ok := r.(*ssa.UnOp); ok {
-						for _, rr := range *u.Referrers() {
-							if st, ok := rr.(*ssa.Store); ok {
-								elemCell = st.Addr
-							}
-						}
-					}
-				}
-			}
-		}
-	}
-	kLoop := "TxToScriptData:one-send-per-posting-in-order"
-	if header == nil {
-		c.bad("R09b", kLoop, fn.Pos(), "no `for … range txData.Postings` loop writes the `send` statements: postings are not translated one by one in order")
-		return
-	}
-	oblB := newOblSet(c, "R09b")
-	oblB.expect(kLoop, header.Instrs[0].Pos(), "every path through one iteration writes exactly one `send` header")
-	pr := &PathRule{
-		Step: func(pc *PathCtx, s uint64, ins ssa.Instruction) uint64 {
-			if call, ok := ins.(*ssa.Call); ok && isSendWrite(call) {
-				if s&3 < 3 {
-					s++
-				}
-			}
-			return s
-		},
-		Edge: func(pc *PathCtx, s uint64, from *ssa.BasicBlock, si int) (uint64, bool) {
-			to := from.Succs[si]
-			if to == header && header.Dominates(from) && from != header {
-				if s&4 != 0 && s&3 != 1 {
-					oblB.violate(kLoop, from.Instrs[len(from.Instrs)-1].Pos(), fmt.Sprintf("a path through one iteration of the posting loop writes %d `send` statements: a posting is dropped or duplicated", s&3), pc.Trail())
-				}
-				s &^= 7
-			}
-			if from == header && len(header.Succs) == 2 && to == header.Succs[0] {
-				s = 4
-			}
-			return s, true
-		},
-	}
-	c.RunPaths(fn, 0, pr)
-	oblB.flush()
-
-	// ---- R09e: attribution inside the emitting loop
-	fieldOfElem := func(v ssa.Value) *types.Var {
-		// v = load of &elemCell.F
-		f, base := anyFieldRead(v)
-		if f != nil && (base == elemCell) {
-			return f
-		}
-		return nil
-	}
-	keyDesc := func(v ssa.Value) string {
-		if f := fieldOfElem(v); f != nil {
-			return f.Name()
-		}
-		if sp, ok := v.(*ssa.Call); ok && calleeFullName(sp) == "fmt.Sprintf" {
-			f, _ := constString(sp.Call.Args[0])
-			var parts []string
-			for _, e := range variadicElems(sp.Call.Args[1]) {
-				e = strip(e)
-				if fe := fieldOfElem(e); fe != nil {
-					parts = append(parts, fe.Name())
-				} else if call, ok := e.(*ssa.Call); ok && calleeFullName(call) == "(*math/big.Int).String" {
-					if fe := fieldOfElem(call.Call.Args[0]); fe != nil {
-						parts = append(parts, fe.Name()+".String()")
-					}
-				} else {
-					parts = append(parts, "?")
-				}
-			}
-			return fmt.Sprintf("Sprintf(%q,%s)", f, strings.Join(parts, ","))
-		}
-		return "?"
-	}
-	// writes in the loop: map each format to the key of the lookup its name comes from
-	want := map[string]string{"send $": `Sprintf("[%s %s]",Amount.String(),Asset)`, "source = $": "Source", "destination = $": "Destination"}
-	found := map[string]bool{}
-	for _, b := range fn.Blocks {
-		if !header.Dominates(b) {
-			continue
-		}
-		for _, ins := range b.Instrs {
-			call, ok := ins.(*ssa.Call)
-			if !ok || !strings.HasPrefix(calleeFullName(call), "(*strings.Builder).Write") {
-				continue
-			}
-			sp, ok := call.Call.Args[1].(*ssa.Call)
-			if !ok || calleeFullName(sp) != "fmt.Sprintf" {
-				continue
-			}
-			format, _ := constString(sp.Call.Args[0])
-			for prefix, wantKey := range want {
-				if !strings.Contains(format, prefix) {
-					continue
-				}
-				found[prefix] = true
-				// the %s argument: name of a variable obtained by Lookup
-				got := "?"
-				for _, e := range variadicElems(sp.Call.Args[1]) {
-					e = strip(e)
-					f, base := anyFieldRead(e)
-					if !sameField(f, nameF) {
-						continue
-					}
-					// base: local cell holding Extract(Lookup,0)
-					var lk *ssa.Lookup
-					if s := singleStore(base); s != nil {
-						if ex, ok := s.(*ssa.Extract); ok {
-							lk, _ = ex.Tuple.(*ssa.Lookup)
-						}
-						if l2, ok := s.(*ssa.Lookup); ok {
-							lk = l2
-						}
-					}
-					if lk != nil {
-						got = keyDesc(lk.Index)
-					}
-				}
-				c.check(got == wantKey, "R09e", "TxToScriptData:"+strings.TrimSpace(strings.TrimSuffix(prefix, "$"))+"-line-uses-the-current-posting", call.Pos(), "variable looked up by "+wantKey+" of the current posting",
-					fmt.Sprintf("the `%s…` line names a variable looked up by %s instead of %s of the posting being translated: postings are re-attributed", strings.TrimSpace(prefix), got, wantKey))
-			}
-		}
-	}
-	for prefix := range want {
-		if !found[prefix] {
-			c.bad("R09e", "TxToScriptData:"+strings.TrimSpace(strings.TrimSuffix(prefix, "$"))+"-line-uses-the-current-posting", fn.Pos(), "the emitting loop writes no `"+prefix+"…` line")
-		}
-	}
-	// registration loop: map updates keyed by the posting's own field, value = that field / "<asset> <amount>"
-	nReg := 0
-	for _, b := range fn.Blocks {
-		for _, ins := range b.Instrs {
-			mu, ok := ins.(*ssa.MapUpdate)
-			if !ok {
-				continue
-			}
-			// value: load of a local `variable` literal
-			u, ok := mu.Value.(*ssa.UnOp)
-			if !ok {
-				continue
-			}
-			cell, ok := u.X.(*ssa.Alloc)
-			if !ok || !isNamed(cell.Type(), pkgLedger, "variable") {
-				continue
-			}
-			nReg++
-			var val ssa.Value
-			for _, r := range *cell.Referrers() {
-				if fa, ok := r.(*ssa.FieldAddr); ok && sameField(fieldOfAddr(fa), valueF) {
-					for _, rr := range *fa.Referrers() {
-						if st, ok := rr.(*ssa.Store); ok {
-							val = st.Val
-						}
-					}
-				}
-			}
-			regElem := func(v ssa.Value) string {
-				// in the registration loop the current posting is another local; describe by field names only
-				f, _ := anyFieldRead(v)
-				if f != nil {
-					return f.Name()
-				}
-				if sp, ok := v.(*ssa.Call); ok && calleeFullName(sp) == "fmt.Sprintf" {
-					ff, _ := constString(sp.Call.Args[0])
-					var parts []string
-					for _, e := range variadicElems(sp.Call.Args[1]) {
-						e = strip(e)
-						if fe, _ := anyFieldRead(e); fe != nil {
-							parts = append(parts, fe.Name())
-						} else if call, ok := e.(*ssa.Call); ok && calleeFullName(call) == "(*math/big.Int).String" {
-							if fe, _ := anyFieldRead(call.Call.Args[0]); fe != nil {
-								parts = append(parts, fe.Name()+".String()")
-							}
-						} else {
-							parts = append(parts, "?")
-						}
-					}
-					return fmt.Sprintf("Sprintf(%q,%s)", ff, strings.Join(parts, ","))
-				}
-				return "?"
-			}
-			k, v := regElem(mu.Key), "?"
-			if val != nil {
-				v = regElem(val)
-			}
-			okPair := (k == "Source" && v == "Source") || (k == "Destination" && v == "Destination") ||
-				(k == `Sprintf("[%s %s]",Amount.String(),Asset)` && v == `Sprintf("%s %s",Asset,Amount.String())`)
-			c.check(okPair, "R09e", fmt.Sprintf("TxToScriptData:registration#%d:%s", nReg, k), mu.Pos(), "variable registered under "+k+" carries value "+v, fmt.Sprintf("a variable registered under key %s carries value %s: the value bound to the generated variable is not the posting's own field", k, v))
-		}
-	}
-	if nReg < 3 {
-		c.undecided("R09e", "floor:registrations", fn.Pos(), fmt.Sprintf("expected the source, destination and monetary registrations, found %d", nReg))
-	}
+	runTxScriptRules(c, fn, nameF, valueF, postingsF, fSource, fDest, fAsset, fAmount)
 	// vars[name] = value for both maps
 	nExport := 0
 	for _, b := range fn.Blocks {
@@ -605,16 +232,16 @@ func isSendWrite(call *ssa.Call) bool {
 	if !strings.HasPrefix(calleeFullName(call), "(*strings.Builder).Write") {
 		return false
 	}
-	arg := call.Call.Args[1]
-	if s, ok := constString(arg); ok {
-		return strings.HasPrefix(strings.TrimSpace(s), "send ")
+	vs := strParts(call.Call.Args[1])
+	if len(vs) == 0 {
+		return false
 	}
-	if sp, ok := arg.(*ssa.Call); ok && calleeFullName(sp) == "fmt.Sprintf" {
-		if f, ok := constString(sp.Call.Args[0]); ok {
-			return strings.HasPrefix(strings.TrimSpace(f), "send ")
+	for _, parts := range vs {
+		if len(parts) == 0 || !parts[0].isLit() || !strings.HasPrefix(strings.TrimSpace(parts[0].lit), "send ") {
+			return false
 		}
 	}
-	return false
+	return true
 }
 
 // isParamOrSpill: v is the parameter itself or the local cell the parameter was spilled into.
